@@ -24,6 +24,10 @@ def do_call(run, st, ins):
             st.regs[reg] = LIB[name](run, st, args, ins)
             run.V.lib_used.add(name)
             return
+        callee = run.prog.funcs.get(name)
+        if callee is not None and run.V.contract_for(callee) is None and callee.get("hasBody"):
+            run.push_frame(st, callee, args, ins)
+            return
         st.regs[reg] = apply_contract(run, st, name, args, ins)
         return
     if fn["k"] in ("reg", "param"):
@@ -72,7 +76,7 @@ def builtin(run, st, name, args, ins):
         site = ins.get("pos", "")
         fits = run.int_cmp("<=", run.mk_int(nd + ns, 64), dst.cap, True)
         if fits is not True and fits is not False:
-            key = ("append", ins.get("reg"), st.block)
+            key = ("append", st.frame_tag, ins.get("reg"), st.block)
             tr = st.decided.get(key)
             if tr is None:
                 # the capacity decides whether the caller's backing array is written: both cases are explored
@@ -307,7 +311,7 @@ def apply_contract(run, st, name, args, ins, bindings=None):
     for kind, txt in c.other:
         if kind == "errcases":
             rn_ = txt.strip()
-            key = ("errcase", rn_, ins.get("reg"), st.block)
+            key = ("errcase", rn_, st.frame_tag, ins.get("reg"), st.block)
             pol = st.decided.get(key)
             if pol is None:
                 for pol in (True, False):
@@ -327,7 +331,7 @@ def apply_contract(run, st, name, args, ins, bindings=None):
     ghosts = [g.strip() for kind, txt in c.other if kind == "ghost" for g in txt.split(",") if g.strip()]
     if ghosts and not c.variant:
         from .symex import ELEMENT
-        key = ("ghostinst", ins.get("reg"), st.block, ins.get("pos", ""))
+        key = ("ghostinst", st.frame_tag, ins.get("reg"), st.block, ins.get("pos", ""))
         have = st.cache.get(key)
         if have is None:
             inst = {}
@@ -531,7 +535,7 @@ def apply_contract(run, st, name, args, ins, bindings=None):
         st.assume(ev1.bool(ast))
     st.pending = {}
     for rn_ in errcase:
-        st.decided.pop(("errcase", rn_, ins.get("reg"), st.block), None)
+        st.decided.pop(("errcase", rn_, st.frame_tag, ins.get("reg"), st.block), None)
     if len(results) == 0:
         return None
     if len(results) == 1:
